@@ -394,9 +394,41 @@ const EMBED_KINDS: [&str; 18] = [
     "safe", "undef", "none", "dynobj", "plain", "seqval", "tuple", "iter", "bytes", "u128", "invalid", "longstr", "smallstr", "mapval",
     "oneshot", "lazyf", "cseq", "cmap",
 ];
-const EMBED_CTX: [&str; 13] = [
+const EMBED_CTX: [&str; 16] = [
     "field", "seq", "mapval", "mapkey", "some", "newvariant", "tupvariant", "structvariant", "tuple", "nested", "afterleak", "viavalue", "top",
+    "aftererror", "afterpanic", "nestedpanic",
 ];
+
+/// serialises an embedded value, then fails
+struct FailAfter(Value);
+impl Serialize for FailAfter {
+    fn serialize<S: Serializer>(&self, s: S) -> Result<S::Ok, S::Error> {
+        let mut st = s.serialize_struct("FailAfter", 2)?;
+        st.serialize_field("v", &self.0)?;
+        Err(serde::ser::Error::custom("deliberate failure"))
+    }
+}
+/// serialises an embedded value, then panics
+struct PanicAfter(Value);
+impl Serialize for PanicAfter {
+    fn serialize<S: Serializer>(&self, s: S) -> Result<S::Ok, S::Error> {
+        let mut st = s.serialize_struct("PanicAfter", 2)?;
+        st.serialize_field("v", &self.0)?;
+        panic!("deliberate panic in Serialize")
+    }
+}
+/// runs a nested conversion that panics (caught), then embeds the value directly
+struct CatchInside(Value, std::sync::atomic::AtomicBool);
+impl Serialize for CatchInside {
+    fn serialize<S: Serializer>(&self, s: S) -> Result<S::Ok, S::Error> {
+        let v = self.0.clone();
+        let _ = std::panic::catch_unwind(std::panic::AssertUnwindSafe(|| Value::from(Serde(PanicAfter(v)))));
+        self.1.store(minijinja::value::serializing_for_value(), std::sync::atomic::Ordering::SeqCst);
+        let mut st = s.serialize_struct("CatchInside", 1)?;
+        st.serialize_field("direct", &self.0)?;
+        st.end()
+    }
+}
 
 fn mk_embed(kind: &str, r: &mut Rng) -> Value {
     match kind {
@@ -549,6 +581,42 @@ fn run_embed(ctx: &str, kind: &str, seed: u64) -> String {
                 same_value(&pv, &idx(&out0, 5)?)?;
                 field_check(&Value::from(Serde(holder())))?;
             }
+            "aftererror" => {
+                let bad = Value::from(Serde(FailAfter(v.clone())));
+                if bad.kind() != minijinja::value::ValueKind::Invalid {
+                    return Err("a failing Serialize did not yield an invalid value".into());
+                }
+                if minijinja::value::serializing_for_value() {
+                    return Err("serializing_for_value() still set after a failed conversion".into());
+                }
+                field_check(&Value::from(Serde(holder())))?;
+            }
+            "afterpanic" => {
+                let vv = v.clone();
+                let r = std::panic::catch_unwind(std::panic::AssertUnwindSafe(|| Value::from(Serde(PanicAfter(vv)))));
+                if r.is_ok() {
+                    return Err("panic did not propagate".into());
+                }
+                if minijinja::value::serializing_for_value() {
+                    return Err("serializing_for_value() still set after a conversion that panicked".into());
+                }
+                field_check(&Value::from(Serde(holder())))?;
+                // serde_json (an external serializer) must now see the plain value, not a handle
+                if serde_json::to_string(&Value::from(7)).ok().as_deref() != Some("7") {
+                    return Err("external serializer sees a value handle after a panicked conversion".into());
+                }
+            }
+            "nestedpanic" => {
+                let c = CatchInside(v.clone(), std::sync::atomic::AtomicBool::new(false));
+                let out = Value::from(Serde(&c));
+                if !c.1.load(std::sync::atomic::Ordering::SeqCst) {
+                    return Err("flag cleared inside the outer conversion by a nested one that panicked".into());
+                }
+                same_value(&v, &get(&out, "direct")?)?;
+                if minijinja::value::serializing_for_value() {
+                    return Err("serializing_for_value() still set afterwards".into());
+                }
+            }
             "viavalue" => {
                 let out = Value::from(Serde(Nested(v.clone())));
                 same_value(&v, &get(&out, "direct")?)?;
@@ -581,7 +649,7 @@ fn field_check_inner(v: &Value, out: &Value) -> Result<(), String> {
 }
 
 // ------------------------------------------------------------------------------------ json stream
-const JSON_MODES: [&str; 7] = ["tojson", "tojson_true", "tojson_kw3", "tojson_0", "auto_json", "auto_js", "tojson_in_html"];
+const JSON_MODES: [&str; 11] = ["tojson", "tojson_true", "tojson_kw3", "tojson_0", "auto_json", "auto_js", "tojson_in_html", "sj_string", "sj_pretty", "tojson_expr", "auto_write"];
 
 fn gen_key_vd(r: &mut Rng) -> VD {
     match r.below(12) {
@@ -673,6 +741,23 @@ fn gen_vd(r: &mut Rng, depth: u32) -> VD {
 }
 
 fn render_json(env: &Environment, mode: &str, v: &Value) -> Result<String, minijinja::Error> {
+    // the same `impl Serialize for Value` reached directly, outside any render
+    if mode == "sj_string" || mode == "sj_pretty" {
+        let r = if mode == "sj_string" { serde_json::to_string(v) } else { serde_json::to_string_pretty(v) };
+        return r.map_err(|e| minijinja::Error::new(minijinja::ErrorKind::BadSerialization, e.to_string()));
+    }
+    // the Expression API, and a stored template rendered into an io::Write
+    if mode == "tojson_expr" {
+        let out = env.compile_expression("v|tojson")?.eval(context! { v => v.clone() })?;
+        return Ok(out.as_str().unwrap_or("<not a string>").to_string());
+    }
+    if mode == "auto_write" {
+        let mut env2 = Environment::new();
+        env2.add_template("data.json", "{% autoescape 'json' %}{{ v }}{% endautoescape %}")?;
+        let mut buf: Vec<u8> = vec![];
+        env2.get_template("data.json")?.render_captured_to(context! { v => v.clone() }, &mut buf)?;
+        return String::from_utf8(buf).map_err(|e| minijinja::Error::new(minijinja::ErrorKind::BadSerialization, e.to_string()));
+    }
     let (name, src) = match mode {
         "tojson" => ("t.txt", "{{ v|tojson }}"),
         "tojson_true" => ("t.txt", "{{ v|tojson(true) }}"),
@@ -737,6 +822,8 @@ fn run_json(env: &Environment, mode: &str, vd: &VD) -> String {
         "alpha:na".into()
     };
     let sj = match serde_json::from_str::<serde_json::Value>(&out) {
+        // the reader's own nesting limit (128), not a property of the text
+        Err(e) if e.to_string().contains("recursion limit") => "sj:skip:depth".to_string(),
         Err(_) => "sj:bad".to_string(),
         Ok(parsed) => match json_image(vd) {
             Ok(img) => {
@@ -766,17 +853,25 @@ fn contains_plain(v: &VD) -> bool {
 
 /// `impl Serialize for Value` driven by the shape-recording serializer: the call log + the contract
 fn run_ser(vd: &VD) -> String {
+    // `serde_json::to_value` (a third external serializer) against the independently built image
+    let tv = match (guarded(|| serde_json::to_value(vd.build())), json_image(vd)) {
+        (Ok(Ok(got)), Ok(img)) => if json_close(&got, &img) { "tv:ok" } else { "tv:bad" },
+        (Ok(Err(_)), Ok(_)) => if bad_key(vd).is_some() { "tv:refused" } else { "tv:bad" },
+        (Err(_), _) => "tv:panic",
+        (_, Err(_)) => "tv:skip",
+    };
     match guarded(|| lazy::record(&vd.build())) {
         Ok(Ok(rec)) => format!(
-            "{}\t{}",
+            "{}\t{}\t{}",
             rec.to_text(),
             match rec.contract() {
                 Ok(()) => "contract:ok".to_string(),
                 Err(e) => format!("contract:bad:{e}"),
-            }
+            },
+            tv
         ),
-        Ok(Err(e)) => format!("err:{e}\tcontract:na"),
-        Err(_) => "panic\tcontract:na".into(),
+        Ok(Err(e)) => format!("err:{e}\tcontract:na\t{tv}"),
+        Err(_) => format!("panic\tcontract:na\t{tv}"),
     }
 }
 
@@ -842,6 +937,12 @@ const TPL_EXPRS: &[&str] = &[
     "it",
     "lz",
     "ob",
+    "[it, it]",
+    "{'a': it, 'b': it, 'c': lz, 'd': lz}",
+    "[it|list, it|list]",
+    "d|dictsort|list",
+    "d|items|list",
+    "{1: 'a', true: 'b', 2.5: 'c', none: 'd'}|items|list if false else {1: 'a', 2: lz}",
     "xs|groupby('__class__')|list if false else xs|map('string')|list",
     "it|map('int')|select('gt', 1)",
     "lz|first",
@@ -971,6 +1072,12 @@ fn main() {
                     writeln!(out, "derived {} {}\t{}", ty, s, derived::run(ty, s)).unwrap();
                 }
             }
+            for ty in derived::TYPES_X {
+                for _ in 0..n_der {
+                    let s = r.next() % 1_000_000_007;
+                    writeln!(out, "derivedx {} {}\t{}", ty, s, derived::run_x(ty, s)).unwrap();
+                }
+            }
             for ctx in EMBED_CTX {
                 for kind in EMBED_KINDS {
                     for _ in 0..(if thorough { 20 } else { 2 }) {
@@ -998,6 +1105,29 @@ fn main() {
                 for mode in ["tojson", "auto_json"] {
                     let vd = VD::Str(s.clone(), false);
                     writeln!(out, "json {} {}\t{}", mode, vd.to_text(), run_json(&env, mode, &vd)).unwrap();
+                }
+            }
+            // deeply nested values (every mode)
+            {
+                let mut deep_list = VD::Int(1, false);
+                let mut deep_map = VD::Str("x".into(), false);
+                let mut deep_lazy = VD::None;
+                for i in 0..200 {
+                    deep_list = VD::Seq(vec![deep_list]);
+                    if i < 100 {
+                        deep_map = VD::Map(vec![(VD::Str("k".into(), false), deep_map)]);
+                        deep_lazy = VD::Lazy(if i % 2 == 0 { "if" } else { "os" }, vec![VD::Int(i as i128, false), deep_lazy]);
+                    }
+                }
+                for vd in [deep_list, deep_map, deep_lazy, VD::Invalid, VD::Seq(vec![VD::Invalid, VD::Undef]), VD::Map(vec![(VD::Str("e".into(), false), VD::Invalid)])] {
+                    for mode in JSON_MODES {
+                        // an invalid value handed to a filter / printed raises its error: only the direct serializer
+                        if vd == VD::Invalid && !mode.starts_with("sj_") {
+                            continue;
+                        }
+                        writeln!(out, "json {} {}\t{}", mode, vd.to_text(), run_json(&env, mode, &vd)).unwrap();
+                    }
+                    writeln!(out, "ser {}\t{}", vd.to_text(), run_ser(&vd)).unwrap();
                 }
             }
             // member order and number layout anchors (every mode)
@@ -1091,6 +1221,7 @@ fn main() {
                     run_cross(&shape, &data, &shape2)
                 }
                 "derived" => derived::run(&args[3], args[4].parse().unwrap()),
+                "derivedx" => derived::run_x(&args[3], args[4].parse().unwrap()),
                 "embed" => run_embed(&args[3], &args[4], args[5].parse().unwrap()),
                 "json" => {
                     let vd = parse_vd(&mut Toks::new(&args[4..].join(" "))).unwrap();
